@@ -1246,3 +1246,55 @@ func sortStrings(s []string) {
 		}
 	}
 }
+
+// DiscNames are the discriminator field names the generator uses.
+var DiscNames = map[string]bool{"_type": true, "disc": true, "t_": true, "d": true}
+
+// UnknownDiscriminator sets one discriminator field of a raw tree to a value of the same Go type that
+// names no member. ok=false if the tree has no discriminator field.
+func UnknownDiscriminator(r *wk.Rand, v any) (any, bool) {
+	type site struct {
+		set func(any)
+		val any
+	}
+	var sites []site
+	var walk func(cur any)
+	walk = func(cur any) {
+		switch x := cur.(type) {
+		case []any:
+			for _, e := range x {
+				walk(e)
+			}
+		case map[string]any:
+			for k, e := range x {
+				if DiscNames[k] {
+					k := k
+					sites = append(sites, site{func(n any) { x[k] = n }, e})
+				}
+				walk(e)
+			}
+		case map[any]any:
+			for k, e := range x {
+				if ks, ok := k.(string); ok && DiscNames[ks] {
+					k := k
+					sites = append(sites, site{func(n any) { x[k] = n }, e})
+				}
+				walk(e)
+			}
+		}
+	}
+	walk(v)
+	if len(sites) == 0 {
+		return v, false
+	}
+	s := wk.Pick(r, sites)
+	switch s.val.(type) {
+	case string:
+		s.set("no-such-member")
+	case int64:
+		s.set(int64(987654))
+	default:
+		s.set("no-such-member")
+	}
+	return v, true
+}
